@@ -67,6 +67,7 @@ class Report:
         self.notes = []
         self.t0 = time.time()
         self.explanation = ""
+        self.controls = []
 
     def rule(self, name, floor=0, what=""):
         r = RuleRun(self, name, floor, what)
@@ -160,6 +161,7 @@ class Report:
                           for r in self.rules},
                 "analysed": self.analysed,
                 "not_decided": self.not_decided,
+                "positive_controls": self.controls,
                 "findings": [{"rule": f.rule, "construct": f.construct, "message": f.message, "where": f.where,
                               "witness": _js(f.witness)} for f in self.findings],
                 "trusted_base": self.trusted,
